@@ -127,6 +127,17 @@ impl MessageBody for TokBody {
         self.declared
     }
 }
+/// a body whose measurement fails
+#[derive(Debug, Clone)]
+pub struct PanicLen {
+    #[allow(dead_code)]
+    t: TokBody,
+}
+impl MessageBody for PanicLen {
+    fn byte_len(&self) -> usize {
+        panic!("scripted: byte_len of this body panics")
+    }
+}
 impl TokBody {
     fn new(uid: u32, declared: usize) -> Self {
         TokBody { tok: Token::new(uid, false), uid, declared, check: check_of(uid) }
@@ -141,6 +152,8 @@ pub struct DStruct {
     pub a: u32,
     pub t: TokBody,
     pub s: String,
+    /// (a field whose name starts with an underscore is a field like every other: it is part of the measured length)
+    pub _reserved: u16,
 }
 
 #[derive(Debug, Clone, MessageBody)]
@@ -284,14 +297,14 @@ pub fn declared_len_uid(body: u8, uid: u32) -> usize {
         8 => if uid % 2 == 0 { tok_len(uid) } else { 0 },      // Option<TokBody>
         9 => (0..(uid % 4) as usize).map(|k| tok_len(uid + k as u32)).sum(), // Vec<TokBody>
         10 => tok_len(uid),                                    // Box<TokBody>
-        11 => 4 + tok_len(uid) + 3,                            // DStruct {a, t, s:"abc"}
+        11 => 4 + tok_len(uid) + 3 + 2,                        // DStruct {a, t, s:"abc", _reserved}
         12 => match uid % 3 {                                  // DEnum: active variant only
             0 => 0,
             1 => 2 + tok_len(uid),
             _ => 8 + tok_len(uid) + 5,
         },
         13 => tok_len(uid) + 1,                                // DGen<TokBody>
-        14 => (4 + tok_len(uid) + 3 + 1) + (2 + tok_len(uid + 1)) + if uid % 2 == 0 { 4 } else { 0 }, // DNested
+        14 => (4 + tok_len(uid) + 3 + 2 + 1) + (2 + tok_len(uid + 1)) + if uid % 2 == 0 { 4 } else { 0 }, // DNested
         15 => 0,                                               // Zst
         16 => tok_len(uid),                                    // NoClone
         17 => if uid % 2 == 0 { tok_len(uid) } else { 2 },     // Result<TokBody, String>
@@ -320,7 +333,7 @@ pub fn make_message(uid: u32, body: u8) -> Message {
         8 => msg.set_content(if uid % 2 == 0 { Some(TokBody::new(uid, tok_len(uid))) } else { None }),
         9 => msg.set_content((0..uid % 4).map(|k| TokBody::new(uid, tok_len(uid + k))).collect::<Vec<_>>()),
         10 => msg.set_content(Box::new(TokBody::new(uid, tok_len(uid)))),
-        11 => msg.set_content(DStruct { a: uid, t: TokBody::new(uid, tok_len(uid)), s: "abc".into() }),
+        11 => msg.set_content(DStruct { a: uid, t: TokBody::new(uid, tok_len(uid)), s: "abc".into(), _reserved: 7 }),
         12 => msg.set_content(match uid % 3 {
             0 => DEnum::Unit,
             1 => DEnum::Tuple(7, TokBody::new(uid, tok_len(uid))),
@@ -328,7 +341,7 @@ pub fn make_message(uid: u32, body: u8) -> Message {
         }),
         13 => msg.set_content(DGen { v: TokBody::new(uid, tok_len(uid)), w: 9 }),
         14 => msg.set_content(DNested {
-            inner: DGen { v: DStruct { a: uid, t: TokBody::new(uid, tok_len(uid)), s: "xyz".into() }, w: 1 },
+            inner: DGen { v: DStruct { a: uid, t: TokBody::new(uid, tok_len(uid)), s: "xyz".into(), _reserved: 7 }, w: 1 },
             e: DEnum::Tuple(1, TokBody::new(uid, tok_len(uid + 1))),
             o: if uid % 2 == 0 { Some(uid) } else { None },
         }),
@@ -616,7 +629,42 @@ pub fn apply_ops(uid: u32, msg: Message, ops: &[u8]) {
     let n = 1 + (uid as usize % 4);
     for j in 0..n {
         let o = ops[(uid as usize + j) % ops.len()];
-        match o % 8 {
+        match o % 10 {
+            8 => {
+                // Clone::clone_from in both directions: onto a message that already carries a body from one that has none
+                // (the old value must be gone: dropped, not readable, not measured), and the other way round
+                op("clone_from");
+                if k != 16 {
+                    let mut target = make_message(uid ^ 0x5555, 1 + (uid % 5) as u8);
+                    let header_only = Message::default().kind(0);
+                    target.clone_from(&header_only);
+                    if target.length() != 64 || target.try_content::<TokBody>().is_some() {
+                        body_error("clone-from", format!("message {uid:#x}: after clone_from(a message without body) the target reports length {} and {} a body", target.length(), if target.try_content::<TokBody>().is_some() { "still yields" } else { "yields no" }));
+                    }
+                    drop(target);
+                    let mut empty = Message::default();
+                    empty.clone_from(&msg);
+                    right_type_read(uid, k, &empty);
+                    if empty.length() != msg.length() {
+                        body_error("clone-from", format!("message {uid:#x}: clone_from copy has length {}, the original {}", empty.length(), msg.length()));
+                    }
+                    drop(empty);
+                }
+            }
+            9 => {
+                // a body whose byte_len panics while the message is built (the user catches the panic): the value is
+                // dropped exactly once all the same
+                op("byte_len_panics");
+                let r = std::panic::catch_unwind(|| {
+                    let mut m = Message::default();
+                    m.set_content(PanicLen { t: TokBody::new(uid ^ 0x7777, 1) });
+                    m
+                });
+                if r.is_ok() {
+                    body_error("length", format!("message {uid:#x}: a body whose byte_len panics was accepted"));
+                }
+                crate::clear_panic();
+            }
             7 => {
                 // the body is replaced by another value of the same type with a different length
                 op("set_content_again");
